@@ -93,6 +93,12 @@ func (s *socket) send() {
 
 		// Schedule retransmission for the future.
 		c.lastPipe = p
+		if c.resendTimer != nil {
+			// A transmission caused by losing the pipe leaves the
+			// previous retry timer pending; it must not fire early.
+			c.resendTimer.Stop()
+			c.resendTimer = nil
+		}
 		if c.resendTime > 0 {
 			id := c.reqID
 			c.resendTimer = time.AfterFunc(c.resendTime, func() {
